@@ -723,6 +723,8 @@ def replay_run(chk, exe, rp):
     r = rp["replay"]
     if r.get("mode") in ("pair", "free"):
         return replay_threads(chk, r)
+    if r.get("mode") == "opcodes":
+        return run_opcodes(chk, [r["args"]])
     if "lines" not in r:
         return replay_pair(chk, exe, r)
     if r.get("tags", {}).get("kind") == "hash-collision":
@@ -879,6 +881,35 @@ def run_threads(chk, quick):
     return problems
 
 
+def run_opcodes(chk, scenarios):
+    """symbols whose opcodes differ by 2^8, 2^16 (2^24): different symbols, hence different
+    signatures for `A` / `B` and for `FADD(A, X)` / `FADD(B, X)` (harness/c03_opcodes.cc)"""
+    exe = C.build_harness("c03_opcodes", "asan")
+    for args in scenarios:
+        rc, so, se = C.run_harness(exe, args, timeout=1500)
+        chk.count("opcodes:%s" % args[0])
+        tags = {"kind": "opcode-truncation", "cls": "i_mep", "op": "pack"}
+        rp = {"mode": "opcodes", "args": list(args), "tags": tags}
+        if rc != 0 or not (so.startswith("pair") or so.startswith("csv")):
+            chk.violation("harness c03_opcodes %s: rc=%s %s" % (args, rc, (so + se)[-800:]), rp, tags={"kind": "died"})
+            continue
+        f = {}
+        for part in so.strip().split(" | "):
+            t = part.split()
+            f[t[0]] = t[1:]
+        chk.seen(("opcodes", tuple(args), so.strip()))
+        if "pair" not in f:
+            continue
+        a, b = f["pair"][0], f["pair"][1]
+        same = [k for k in ("sig", "sigF") if (k + "A") in f and f[k + "A"] == f[k + "B"]]
+        if a != b and same:
+            chk.violation("two DIFFERENT symbols (opcodes %s and %s = %s + 2^%s) give the same signature %s to the programs "
+                          "`A` and `B`%s although they compute different values (%s vs %s): pack() does not hash "
+                          "every byte of the opcode" % (a, b, a, args[1] if args[0] == "synthetic" else "16",
+                                                        " ".join(f["sigA"]), " and to FADD(A,X) / FADD(B,X)" if "sigF" in same else "",
+                                                        f["outA"][0], f["outB"][0]), rp, tags=tags)
+
+
 def replay_threads(chk, r):
     if r["mode"] == "pair":
         exe = C.build_harness("c03_threads", "asan")
@@ -956,6 +987,10 @@ def run(chk, replay=None):
             if f.endswith(".json"):
                 replay_run(chk, exe, {"replay": json.load(open(os.path.join(cdir, f)))})
                 chk.count("corpus_files")
+
+    # ---- opcodes far apart (process-wide counter) ----------------------------------------------
+    run_opcodes(chk, [["synthetic", 8], ["synthetic", 16], ["csv", 300]] +
+                ([] if quick else [["synthetic", 20], ["csv", 3000]]))
 
     # ---- concurrent signature computations -----------------------------------------------------
     broken += run_threads(chk, quick)
